@@ -31,6 +31,7 @@ from harness.core import Check, tier_seed, assert_repo, main_guard
 from harness.tlc import run_tlc
 from harness import ensemble_support as S
 from harness import c07_support as C
+from harness import c07_wrappers
 
 NONE, STAR = -1, -2
 DEFG, DEFE = 1000, 100000
@@ -713,6 +714,12 @@ ENS_CONFIGS = [
      "bounds": [(-3.0, 0.0), (0.0, 3.0)], "termG": 4, "limG": None, "cons": True, "pen": True},
     {"name": "buckshot2/NM/far", "kind": "buckshot", "dim": 3, "n": 2, "nested": "NM", "cost": "far",
      "bounds": [(-1.5, 1.5)] * 3, "termG": None, "limG": 4, "cons": False, "pen": False},
+    # an INTEGER number of bins (what the lattice() one-liner passes): the layout is drawn at random BEFORE the members
+    # run (randomly_bin), from the same seeded generator in every mode
+    {"name": "lattice#4/NM/bowl", "kind": "lattice", "dim": 3, "nbins": 4, "n": 4, "nested": "NM", "cost": "bowl",
+     "bounds": [(-1.5, 1.5)] * 3, "termG": None, "limG": 3, "cons": False, "pen": False},
+    {"name": "lattice#3/PW/plateau", "kind": "lattice", "dim": 2, "nbins": 3, "n": 3, "nested": "PW", "cost": "plateau",
+     "bounds": [(-1.5, 1.5), (0.0, 3.0)], "termG": 2, "limG": None, "cons": False, "pen": False},
 ]
 
 
@@ -915,6 +922,8 @@ def explore(ck, a, cache=None, light=False, corrupt=None):
         "selected call sets / schedules: quick executes every emitted order of seeded 4-subsets of 9 calls, of one 5-set "
         "and samples of a 5-set with the drawing call; thorough every order of two 6-sets, two 5-sets and 28 + 12 4-subsets "
         "per template of a 13-call and an 8-call pool, and every one of the 2520 schedules of 4 work items"]
+    if not light:
+        c07_wrappers.part(ck, a)     # (iv) the one-line wrappers against the scripts Wrappers.tla says they denote
 
 
 # =========================================================================================
@@ -1033,6 +1042,7 @@ def selftest(a):
                 undo()
     for what in ("final-config", "de2-reference", "ensemble-reference"):
         missed += 0 if attempt("corrupted expected value (%s)" % what, corrupt=what) else 1
+    missed += c07_wrappers.selftest(a2)     # mutants of the wrappers' source, one falsified value of Wrappers.tla
     return 1 if missed else 0
 
 
